@@ -2,6 +2,7 @@ SPECIFICATION PSpec
 CONSTANTS
   Tries <- MCTries
   MaxEdits = 2
+  AllowImitate = FALSE
   AllowReweight = FALSE
   GenMode = FALSE
 INVARIANTS Complete Sound
